@@ -22,8 +22,8 @@ from regmachine import Machine
 import zoo
 
 PROPERTY = "C10"
-LEAN_MODULE = "PyOak.Props.C05"
-THEOREMS = ["PyOak.C05.dfs_top_down"]
+LEAN_MODULE = "PyOak.Props.C10"
+THEOREMS = ["PyOak.C10." + t for t in ['heap_frame', 'heap_frame_ext', 'heap_frame_asObj', "heap_frame_asObj'", 'heap_frame_all', 'obj_frame', 'heap_frame_run']]
 RULE = ("random histories (<= 24 ops) mixing the registry-affecting operations with read-only ones (dfs/bfs/gather, "
         "Tree queries, xpath find/findall/match, pattern match, visitor, transform visitors that rewrite/remove/raise, "
         "as_dict/to_json/to_msgpck/to_yaml and back, ==, hash, __rich__); after each op all fields + hash of all "
